@@ -98,7 +98,7 @@ impl NodeCfg {
             dhcp: false,
             dhcp_leased_unapplied: vec![],
             dhcp_unmanaged: false,
-            slaac_prefixes: false,
+            slaac_iid: None,
         }
     }
     pub fn rx_verifies_all(&self) -> bool {
